@@ -125,6 +125,7 @@ type Backend struct {
 	plan         func(req *Request) Behaviour
 	HealthStatus int    // status returned for health probes (0 => 200)
 	HealthFail   string // "" | close
+	HealthDelay  time.Duration // the health endpoint answers this late (real time)
 	ModelsBody   func() []byte
 	ModelsStatus int
 	HealthPath   string
@@ -409,7 +410,11 @@ func (b *Backend) serveOne(c net.Conn, br *bufio.Reader, side bool) (reuse bool)
 		b.mu.Lock()
 		b.healthHits++
 		st, hf := b.HealthStatus, b.HealthFail
+		hd := b.HealthDelay
 		b.mu.Unlock()
+		if hd > 0 {
+			time.Sleep(hd)
+		}
 		if hf == "close" {
 			return
 		}
